@@ -42,6 +42,7 @@ func init() {
 			{ID: "C14-R17", Title: "modules in progress are not imported again", Floor: 1, Run: modulesInProgressAreNotImportedAgain},
 			{ID: "C14-R18", Title: "import statements always import", Floor: 2, Run: importStatementsAlwaysImport},
 			{ID: "C14-R19", Title: "shared state is enumerated (shared with C09-R18)", Floor: 1, Run: sharedStateIsEnumerated},
+			{ID: "C14-R20", Title: "a root is loaded only when it is asked for", Floor: 3, Run: rootsAreLoadedOnlyWhenAskedFor},
 		},
 	})
 }
